@@ -13,6 +13,7 @@ import IclModel.Props.C02
 import IclModel.Props.C03
 import IclModel.Lemmas.Framing
 import IclModel.Lemmas.Builder
+import IclModel.Lemmas.WriterLink
 namespace Icl.C01
 open Icl Icl.C04
 
@@ -204,5 +205,98 @@ theorem C01_roundtrip_nl (m : Model) (e : Enc) (ln : Kind → Vals → Bytes) (f
     rw [splitNL_joinNL _ hno, hmap _ hcr]
   unfold readFile
   simp only [hlp, Bool.false_eq_true, if_false, hsplit, hr, Bool.not_true, hu, hc, hcur, hf]
+
+/-! ### the model writer produces exactly those lines -/
+
+/-- structural well-formedness the writer walk needs to emit every record of the tree: container header
+and control records present, every routing number summary present -/
+def TreeWF (f : File Vals) : Prop :=
+  ∀ cl ∈ f.cashLetters, (∃ h c, cl.header = some h ∧ cl.control = some c) ∧ (∀ r ∈ cl.rns, r.isSome = true) ∧
+    (∀ b ∈ cl.bundles, ∃ bh bc, b.header = some bh ∧ b.control = some bc)
+
+theorem flatten_eq_fileRecs (m : Model) (e : Enc) (f : File Vals) (hwf : TreeWF f) :
+    f.flatten = [(Kind.fileHeader, some f.header)] ++ (f.cashLetters.flatMap (clRecs (bodyLn m e))).map unrec ++
+      [(Kind.fileControl, some f.control)] := by
+  simp only [File.flatten, cashLetters_flatten (bodyLn m e) f.cashLetters hwf]
+
+/-- the framed bytes of a list of writable records whose bodies have the announced length -/
+theorem framed_eq_joinLP (m : Model) (e : Enc) (hlp : e.lp = true) :
+    ∀ (krs : List (Kind × Vals)),
+      (∀ kv ∈ krs, (writeLine m e kv.1 (some kv.2)).isSome = true) →
+      (∀ kv ∈ krs, (bodyLn m e kv.1 kv.2).length = (lineOf m kv.1 (some kv.2)).length) →
+      krs.flatMap (fun kv => (writeLine m e kv.1 (some kv.2)).getD []) = joinLP (krs.map (fun kv => bodyLn m e kv.1 kv.2)) ∧
+      ∀ kv ∈ krs, (bodyLn m e kv.1 kv.2).length < 4294967296
+  | [], _, _ => by simp [joinLP]
+  | kv :: r, hw, hl => by
+    obtain ⟨ih1, ih2⟩ := framed_eq_joinLP m e hlp r (fun x hx => hw x (by simp [hx])) (fun x hx => hl x (by simp [hx]))
+    have hsome := hw kv (by simp)
+    cases hx : writeLine m e kv.1 (some kv.2) with
+    | none => simp [hx] at hsome
+    | some x =>
+      obtain ⟨h1, h2⟩ := writeLine_lp m e hlp kv.1 kv.2 x hx (hl kv (by simp))
+      refine ⟨?_, ?_⟩
+      · simp only [List.flatMap_cons, hx, Option.getD_some, ih1, List.map_cons, joinLP, h1]
+      · intro y hy
+        simp only [List.mem_cons] at hy
+        rcases hy with hy | hy
+        · subst hy; exact h2
+        · exact ih2 y hy
+
+/-- **C01 on the model, length-prefixed framing, writer to reader**: if the model writer accepts a
+well-formed file, every record body has the length its prefix announces (true of every record under
+ASCII; `ebcdic_translit` / `ebcdic_ivData` of C08 for EBCDIC), and every record's body decodes back to
+the record, then reading what was written returns the file -/
+theorem C01_write_read_lp (m : Model) (e : Enc) (f : File Vals) (bytes : Bytes) (hlp : e.lp = true)
+    (hw : writeFile m e f = some bytes) (hwf : TreeWF f)
+    (hbody : ∀ kr ∈ f.flatten, ∀ v, kr.2 = some v → (bodyLn m e kr.1 v).length = (lineOf m kr.1 (some v)).length)
+    (hok : FileOK m e (bodyLn m e) f) :
+    readFile m e bytes = (f, none) := by
+  unfold writeFile at hw
+  split at hw
+  · cases hw
+  · split at hw
+    · cases hw
+    · obtain ⟨hout, hall⟩ := foldl_wstep_some m e f.flatten [] bytes hw
+      have hfl := flatten_eq_fileRecs m e f hwf
+      -- the records as (kind, value) pairs
+      let krs : List (Kind × Vals) :=
+        [(Kind.fileHeader, f.header)] ++ (f.cashLetters.flatMap (clRecs (bodyLn m e))).map (fun r => (r.1, r.2.1)) ++
+          [(Kind.fileControl, f.control)]
+      have hkrs : f.flatten = krs.map (fun kv => (kv.1, some kv.2)) := by
+        rw [hfl]
+        simp [krs, unrec, Function.comp_def]
+      have hw' : ∀ kv ∈ krs, (writeLine m e kv.1 (some kv.2)).isSome = true := by
+        intro kv hkv
+        exact hall (kv.1, some kv.2) (by rw [hkrs]; exact List.mem_map.2 ⟨kv, hkv, rfl⟩)
+      have hl' : ∀ kv ∈ krs, (bodyLn m e kv.1 kv.2).length = (lineOf m kv.1 (some kv.2)).length := by
+        intro kv hkv
+        exact hbody (kv.1, some kv.2) (by rw [hkrs]; exact List.mem_map.2 ⟨kv, hkv, rfl⟩) kv.2 rfl
+      obtain ⟨hj, hlt⟩ := framed_eq_joinLP m e hlp krs hw' hl'
+      have hlines : krs.map (fun kv => bodyLn m e kv.1 kv.2) = fileLines (bodyLn m e) f := by
+        have hmid : ((f.cashLetters.flatMap (clRecs (bodyLn m e))).map (fun r => (r.1, r.2.1))).map (fun kv => bodyLn m e kv.1 kv.2)
+            = (f.cashLetters.flatMap (clRecs (bodyLn m e))).map (·.2.2) := by
+          rw [List.map_map]
+          apply List.map_congr_left
+          intro r hr
+          have := lineOK_flatMap (bodyLn m e) f.cashLetters (clRecs (bodyLn m e)) (fun cl _ => lineOK_cashLetter (bodyLn m e) cl) r hr
+          exact this.symm
+        simp only [krs, fileLines, List.map_append, List.map_cons, List.map_nil, hmid]
+      have hbytes : bytes = joinLP (fileLines (bodyLn m e) f) := by
+        rw [hout, hkrs, List.flatMap_map, List.nil_append, ← hlines]
+        exact hj
+      rw [hbytes]
+      refine C01_roundtrip_lp m e (bodyLn m e) f hlp hok ?_
+      intro l hl
+      rw [← hlines] at hl
+      obtain ⟨kv, hkv, rfl⟩ := List.mem_map.1 hl
+      exact hlt kv hkv
+
+/-- under ASCII the body of a record is the record: the length premise is void -/
+theorem C01_write_read_lp_ascii (m : Model) (e : Enc) (f : File Vals) (bytes : Bytes) (hlp : e.lp = true) (ha : e.ebcdic = false)
+    (hw : writeFile m e f = some bytes) (hwf : TreeWF f) (hok : FileOK m e (bodyLn m e) f) :
+    readFile m e bytes = (f, none) := by
+  refine C01_write_read_lp m e f bytes hlp hw hwf ?_ hok
+  intro kr _ v _
+  simp [bodyLn, bodyOf, ha]
 
 end Icl.C01
